@@ -212,7 +212,14 @@ func (v *V2) RecoverIndex(buf []byte, startFileOffset uint32, baseEntryOffset in
 		var err error
 		if payloadSize, _, payloadCrc, err = v.ReadHeaderWithValidation(buf, newFileOffset); err != nil {
 			if errors.Is(err, ErrEmptyPayload) {
-				// we might read the end of the segment.
+				// we might read the end of the segment. Unwritten space is all zeroes: a zero length
+				// followed by non-zero checksum fields is a damaged length field of a real record.
+				if commitOffset != nil && currentEntryOffset <= *commitOffset &&
+					(ReadInt(buf, newFileOffset+v2PayloadSizeLen) != 0 ||
+						ReadInt(buf, newFileOffset+v2PayloadSizeLen+v2PreviousCrcLen) != 0) {
+					return nil, 0, 0, 0, errors.Wrapf(ErrDataCorrupted,
+						"zero length in a committed record. entryOffset: %d", currentEntryOffset)
+				}
 				break
 			}
 			// data corruption
